@@ -276,6 +276,17 @@ UPTR2 = ["    m_readWriteQueue.write(obj);\n\n    /* drop old data */", "    m_r
 mut('smart-owner-plus-leftover-delete', 'File.cpp', [UPTR0, UPTR1, UPTR2],
     ['C13'], ['O2|File::uncompressedFile2ReadWriteQueue|owner'], 'the error path still deletes the object the unique_ptr owns: double free on a truncated object')
 
+mut('compressed-seekg-clears-state', 'CompressedFile.cpp', [["    m_file.seekg(off, way);", "    m_file.clear();\n    m_file.seekg(off, way);"]],
+    ['C08'], ['E4|CompressedFile'], 'the padding seek behind a short container read wipes eof|fail before File checks good()')
+mut('open-returns-before-workers', 'File.cpp', [["        fileStatistics.read(m_compressedFile);\n", "        fileStatistics.read(m_compressedFile);\n        if (!m_compressedFile.good())\n            return;\n"]],
+    ['C13', 'C08'], ['O3|open|workers-started'], 'a file cut inside its header: open() succeeds, no worker ever declares the end, read() blocks')
+mut('failed-open-declares-end', 'File.cpp', [["    if (!m_compressedFile.is_open())\n        return;\n    m_openMode = mode;", "    if (!m_compressedFile.is_open()) {\n        m_readWriteQueue.setFileSize(m_readWriteQueue.tellp());\n        return;\n    }\n    m_openMode = mode;"]],
+    ['C13'], ['O3|open|no-session-no-effect'], 'after a failed open the queue has a declared end of 0: the next successful open delivers nothing')
+mut('read-returns-on-abort-before-end-handling', 'UncompressedFile.cpp', [["    m_requestedEnd = 0;\n", "    m_requestedEnd = 0;\n    if (m_abort) {\n        m_gcount = 0;\n        tellgChanged.notify_all();\n        return;\n    }\n"]],
+    ['C15', 'C06'], ['R2|read|end-handling-on-every-path'], 'an aborted read returns short with the state good: the header decoder spins, close() waits for the join')
+mut('restore-offset-adjusted', 'File.cpp', [["            fileStatistics.restorePointsOffset = static_cast<uint64_t>(m_compressedFile.tellp());\n", "            fileStatistics.restorePointsOffset = static_cast<uint64_t>(m_compressedFile.tellp());\n            fileStatistics.restorePointsOffset -= LogContainer().calculateObjectSize();\n"]],
+    ['C05'], ['H2|close|write'], 'the restore-point offset no longer designates the start of the trailing container')
+
 # ------------------------------------------------------------------ benign refactorings (must stay silent)
 ALL_LAYOUT = ['C01', 'C02', 'C03', 'C10', 'C14']
 ben('reorder-size-terms', 'AppText.cpp', [["        sizeof(source) +\n        sizeof(reservedAppText1) +", "        sizeof(reservedAppText1) +\n        sizeof(source) +"]], ALL_LAYOUT)
